@@ -615,22 +615,16 @@ func TestVerifC03SignRecover(t *testing.T) {
 // EIP155Signer, Frontier/Homestead and LatestSignerForChainID(nil)).
 func TestVerifC03ChainIDZero(t *testing.T) {
 	st := vs.New("C03", t)
-	// Known-finding gating (effective only if known_findings.json lists it): EIP155Signer with
-	// chain id 0 signs over the EIP-155 hash (.., 0, 0, 0) but emits an unprotected V and recovers
-	// over the Frontier hash, so Sender(SignTx(tx)) is a foreign address.
-	known := vs.Known("TestVerifC03ChainIDZero", "eip155-chainid-zero")
+	// History: on the original tree EIP155Signer with chain id 0 signed over the EIP-155 hash
+	// (.., 0, 0, 0) but emitted an unprotected V and recovered over the Frontier hash, so
+	// Sender(SignTx(tx)) was a foreign address (fixed in /repo b05b89a375). Fully strict, ungated.
 	vs.Check(t, 0.25, func(rt *rapid.T) {
 		c := st.Case()
 		key, d := c03Key(rt)
 		addr := crypto.PubkeyToAddress(key.PublicKey)
 		var s Signer
 		how := ""
-		k := rapid.IntRange(0, 3).Draw(rt, "zeroSigner")
-		if known && k != 2 {
-			st.Excluded()
-			k = 2
-		}
-		switch k {
+		switch rapid.IntRange(0, 3).Draw(rt, "zeroSigner") {
 		case 0:
 			s, how = NewEIP155Signer(nil), "NewEIP155Signer(nil)"
 		case 1:
